@@ -1028,7 +1028,7 @@ impl<'a, C: OrdColl> OrdSession<'a, C> {
             probes.extend([p - 1, p, p + 1]);
         }
         // every stored key must be found once when the collection is small enough
-        if self.mine.len() <= 160 {
+        if self.mine.len() <= 160 && n >= 16 {
             probes.extend(self.mine.iter().cloned());
         }
         for p in probes {
@@ -1349,9 +1349,43 @@ pub fn run_ind<C: OrdColl>(tr: &mut Trace, states: &[Snap], handles: bool) {
 /// clear, refill to n2 entries (past the old arena size), observe, delete every third key, observe.
 /// Stored keys are even, so every gap has a probe.  Order of insertion: ascending / descending /
 /// shuffled, rotating with the seed.
-pub fn run_scale<C: OrdColl>(tr: &mut Trace, plan: &[(i32, i32)], seed: u64, full: bool, cap: i64, snap_every: u64, deep: i32, faults: bool) {
+pub fn run_scale<C: OrdColl>(tr: &mut Trace, plan: &[(i32, i32)], seed: u64, full: bool, cap: i64, snap_every: u64, deep: i32, faults: bool, sweep: (i32, i32)) {
     let mut rng = Rng::new(seed);
     let mut s: OrdSession<C> = OrdSession::new(tr, 1, 0, 0);
+    // clear sweep: every population n of the range (hence every combination of arena size and number of
+    // free slots a fill can end in) is cleared and refilled past the old arena size - by bulk calls, so
+    // that each n costs a handful of events, each judged on its full snapshot
+    for n in sweep.0..=sweep.1 {
+        if n <= 0 || s.tr.full() {
+            break;
+        }
+        s.snap_every = 1;
+        s.obs_every = 1;
+        s.keys = 4 * n + 40;
+        s.reset(if cap >= 0 { cap as usize } else { [0usize, 1, 8, 9][(seed as usize + n as usize) % 4] });
+        s.apply(&OOp::Bulk { lo: 2, hi: 2 * n, step: 2, ord: n % 3 }, 0);
+        if n % 4 == 0 {
+            // some fills end with a few removals, so that the free list is not in its initial order
+            for k in [2, 2 * n, n - n % 2] {
+                s.apply(&OOp::Del { k }, 0);
+            }
+        }
+        s.apply(&OOp::Clear, 0);
+        s.apply(&OOp::Empty, 0);
+        let m = n + 10 + (n % 7);
+        s.apply(&OOp::Bulk { lo: 1, hi: 2 * m - 1, step: 2, ord: (n + 1) % 3 }, 0);
+        for k in [1, 2 * m - 1, m | 1, 2, 2 * m] {
+            s.apply(&OOp::Get { k }, 0);
+            let a = s.apply(&OOp::Fil { p: k }, 0);
+            if C::IS_SET && a.ok && a.res >= 0 {
+                s.apply(&OOp::After { h: a.res as u32 }, 0);
+            }
+        }
+        s.apply(&OOp::Del { k: 1 }, 0);
+        s.apply(&OOp::Del { k: m | 1 }, 0);
+        s.apply(&OOp::Ins { k: 0, v: 5 }, 0);
+        s.apply(&OOp::Clear, 0);
+    }
     if deep > 0 {
         // a tree more than 2 * log2(n) levels deep (monotone insertion), built by one bulk call: look-ups,
         // neighbour steps and removals at the far end of the long spine, and at the near end
@@ -1421,23 +1455,47 @@ pub fn run_scale<C: OrdColl>(tr: &mut Trace, plan: &[(i32, i32)], seed: u64, ful
             ks
         };
         // phase 1: fill (fault runs: at the sizes at which buffers are exactly full or just past it, every
-        // callback index of the insertion is made to panic before the insertion is allowed to complete)
-        for k in order(&mut rng, *n1, seed + round as u64) {
+        // callback index of the insertion is made to panic before the insertion is allowed to complete).
+        // Trees: a few handles are taken along the way and read again after every later insertion.
+        let mut held: Vec<u32> = vec![];
+        let mut fill = |s: &mut OrdSession<C>, rng: &mut Rng, held: &mut Vec<u32>, k: i32| {
             let v = s.next_value(k);
             let n = s.mine.len();
             if faults && (n >= 8 && (n.is_power_of_two() || (n - 1).is_power_of_two() || n % 8 == 7)) {
-                s.enumerate_faults(&OOp::Ins { k, v }, &mut rng);
+                s.enumerate_faults(&OOp::Ins { k, v }, rng);
                 s.mine.insert(k);
+                held.clear();
             } else {
                 s.apply(&OOp::Ins { k, v }, 0);
             }
+            if C::HAS_SNAP && !s.dead {
+                for h in held.iter() {
+                    s.apply(&OOp::Read { h: *h }, 0);
+                }
+                if n % 5 == 2 {
+                    let kk = *s.mine.iter().nth(rng.range(0, s.mine.len() as i64 - 1) as usize).unwrap();
+                    if let Some(h) = s.handle_of(kk) {
+                        held.push(h);
+                        if held.len() > 5 {
+                            held.remove(0);
+                        }
+                    }
+                }
+            }
+        };
+        for k in order(&mut rng, *n1, seed + round as u64) {
+            if s.dead {
+                break;
+            }
+            fill(&mut s, &mut rng, &mut held, k);
         }
         if full && C::HAS_SNAP {
+            // go on until the arena is exactly full, or has one or two free slots left (rotating)
+            let slack = (seed as usize + round) % 3;
             let mut k = 2 * *n1;
-            while s.c.free_slots().map_or(false, |f| f > 0) && k < 2 * universe - 2 && !s.dead {
+            while s.c.free_slots().map_or(false, |f| f != slack) && k < 2 * universe - 2 && !s.dead {
                 k += 2;
-                let v = s.next_value(k);
-                s.apply(&OOp::Ins { k, v }, 0);
+                fill(&mut s, &mut rng, &mut held, k);
             }
         }
         s.sample_queries(&mut rng, 24);
@@ -1445,12 +1503,12 @@ pub fn run_scale<C: OrdColl>(tr: &mut Trace, plan: &[(i32, i32)], seed: u64, ful
         if *n2 > 0 && !s.dead {
             s.apply(&OOp::Clear, 0);
             s.apply(&OOp::Empty, 0);
+            held.clear();
             for k in order(&mut rng, *n2, seed + round as u64 + 1) {
                 if s.dead {
                     break;
                 }
-                let v = s.next_value(k);
-                s.apply(&OOp::Ins { k, v }, 0);
+                fill(&mut s, &mut rng, &mut held, k);
             }
             s.sample_queries(&mut rng, 24);
         }
